@@ -508,6 +508,8 @@ class Inliner:
         if not isinstance(n, ast.Call):
             return False
         if isinstance(n.func, ast.Name):
+            if n.func.id in getattr(self, "_aliases", ()) and not h.is_method and n.func.id != h.name:
+                return True  # the helper under the name this module imported it as (`from ._array import array_index as _array_index`)
             return n.func.id == h.name and not h.is_method
         if isinstance(n.func, ast.Attribute):
             if n.func.attr != h.name or h.local or h.same_module_only:
@@ -526,7 +528,11 @@ class Inliner:
         hf = NameFacts(h.node)
         h_locals = set(hf.stores) | hf.special | set(h.params)
         free = {n.id for n in _own_nodes(h.node) if isinstance(n, ast.Name) and isinstance(n.ctx, ast.Load)} - h_locals
+        home_name_ = next((k for k, t in self.trees.items() if t is home), None)
         for tree in self.trees.values():
+            self._aliases = set()
+            if tree is not home and home_name_ is not None and h.cls is None and not h.local:
+                self._aliases = {local for local, b in self._module_bindings(tree).items() if b == ("from", home_name_, h.name) and local != h.name}
             for fn in [n for n in ast.walk(tree) if isinstance(n, FuncNode) and n is not h.node]:
                 if h.local and h.container is not fn.body:
                     continue  # a local function is only visible in the function that defines it
@@ -554,6 +560,7 @@ class Inliner:
             # calls at module / class level are not touched
             for n in ast.walk(tree):
                 pass
+        self._aliases = set()
         return done, left
 
     def _module_bindings(self, tree: ast.Module) -> Dict[str, object]:
@@ -596,7 +603,7 @@ class Inliner:
         home_name = next((k for k, t in self.trees.items() if t is home), None)
         here = self._module_bindings(tree)
         there = self._module_bindings(home)
-        if h.cls is None and here.get(h.name) != ("from", home_name, h.name):
+        if h.cls is None and here.get(h.name) != ("from", home_name, h.name) and not any(b == ("from", home_name, h.name) for b in here.values()):
             return False
         # (a member of a class is reached through an object; its name is the only one of that spelling in the
         # package - `candidates` - so the attribute call can mean no other function of the package)
